@@ -211,6 +211,14 @@ func cmdAPI(in, out string) error {
 			})
 			b, _ := json.Marshal(map[string]any{"pkg": f.Name.Name, "calls": calls})
 			res.Out = string(b)
+		case "cmtobs":
+			o, err := observeComments(r.Src)
+			if err != nil {
+				res.Err = err.Error()
+			} else {
+				b, _ := json.Marshal(o)
+				res.Out = string(b)
+			}
 		case "impobs":
 			// independent observation of a Go file: its imports, the names used as
 			// selector bases that do not resolve to a local declaration, and the
